@@ -145,14 +145,15 @@ func vReach(label string) {
 func vTag(s string) {}
 func vLog(s string) {}
 
-func vEqBytes(a, b []byte) bool   { return string(a) == string(b) }
-func vEqString(a, b string) bool  { return a == b }
-func vSetPoolReuse(bool)          {}
-func vSetMapOrder(bool)           {}
-func vSetTimerBudget(int)         {}
+func vEqBytes(a, b []byte) bool       { return string(a) == string(b) }
+func vEqString(a, b string) bool      { return a == b }
+func vSetPoolReuse(bool)              {}
+func vSetMapOrder(bool)               {}
+func vSetTimerBudget(int)             {}
+func vSetTimersAnywhere(bool)         {}
 func vParam(name string, def int) int { return def }
-func vSymbolic() bool             { return false }
-func vDaemon()                    {}
+func vSymbolic() bool                 { return false }
+func vDaemon()                        {}
 func vCallers(obj interface{}) string { return "" }
 
 func vGo(name string, f func()) {
@@ -174,8 +175,8 @@ func vAtEnd(f func()) {
 	zz.mu.Unlock()
 }
 
-func vBlocked() int          { return zz.live }
-func vBlockedNames() string  { return "" }
+func vBlocked() int         { return zz.live }
+func vBlockedNames() string { return "" }
 
 // zzFinish waits for the harness goroutines (bounded) and runs the vAtEnd callbacks.
 func zzFinish(wait time.Duration) []string {
